@@ -166,7 +166,14 @@ def run_node(op, params, objs, trace):
     if op == 30: rv = [val(x) for x in r]
     elif op >= 31: rv = 1 if r else 0
     else: rv = val(r)
-    trace.append([op, params, before, rv, 0 if before == after else 1])
+    ent = [op, params, before, rv, 0 if before == after else 1]
+    if op in (12, 13, 18, 20):
+        # probe: what a later append does to the result (the result object itself is not modified)
+        try:
+            ent.append(r.append('!').render(backend()))
+        except Exception as ex:
+            ent.append(type(ex).__name__)
+    trace.append(ent)
     return r
 
 def _impl(top):
@@ -452,7 +459,34 @@ def is_normal(d):
         if _tinfo(a) == _tinfo(b) and a[0] != 1: return False     # neighbours of the same type information (Symbols excepted)
     return True
 
+_SKIP = object()
+def expected_top(op, params, ins):
+    """the markup level the result object itself carries (what a later append / add_period will put new
+    characters into): a + b, join, capfirst, capitalize give a plain text; methods that keep the text
+    'similar' (upper, lower, slices, index, add_period, append, split pieces) keep the receiver's own level"""
+    if op in (18, 20): return None
+    if op in (12, 13): return ('p',) if top_markup(ins[0]) == ('p',) else None
+    if op in (10, 11, 14, 16, 17, 19, 21): return top_markup(ins[0])
+    return _SKIP
+
 def check_node(ent):
+    """the property for one API call: the pair sequence, then the markup level of the result object"""
+    m = check_pairs(ent)
+    if m:
+        return m
+    op, params, ins, out = ent[:4]
+    if out is not None and op < 30 and not any(x[0] == [6] for x in ins):
+        et = expected_top(op, params, ins)
+        if et is None and len(ent) > 5 and isinstance(ent[5], list):
+            got = fl([None, ent[5]]); exp = fl(out) + [(('c', 33), ())]
+            if got != exp:
+                return 'the result is a plain text, so (result).append("!") must add an unmarked "!": got %r, expected %r' % (got, exp)
+        if et is not _SKIP and top_markup(out) != et:
+            return ('operation %d returned an object whose own markup level is %r, the operation gives %r: characters appended to it '
+                    '(append, add_period) get the wrong markup' % (op, top_markup(out), et))
+    return None
+
+def check_pairs(ent):
     """the property for one API call: message or None"""
     op, params, ins, out, mutated = ent[:5]
     if op < 30 and out is not None and not is_normal(out[0]):
@@ -819,8 +853,8 @@ def _gen0(tier, rng):
         ctor = three + trees(4)[::3]
         slc = two + trees(3)[::5]
         mid = two + trees(3)[::2]
-        bin_a = two + trees(3)[::9]
-        join_c = two[::12]
+        bin_a = two + trees(3)[::12]
+        join_c = two[::18]
     else:
         ctor = trees_upto(4) + trees(5)[::6]
         slc = three
@@ -855,14 +889,14 @@ def _gen0(tier, rng):
         yield ('exhaustive_observe', 5, [t, [norm('.'), norm('?'), norm('!')]])
         yield ('exhaustive_observe', 4, [t, []])
     # split where separators sit at part boundaries: leaves {"a", " ", "b c", "-"}, nodes {Text, Tag em, Protected}
-    for t in split_trees(4):
+    for t in (split_trees(3) + split_trees(4)[100::2] if quick else split_trees(4)):
         for sep in ([0], [1, norm(' ')], [1, norm('  ')], [1, norm('a')], [2]):
             for keep in KEEPS:
                 yield ('exhaustive_split_boundary', 2, [t, sep, keep])
         yield ('exhaustive_split_boundary', 1, [[15, t]])
         yield ('exhaustive_split_boundary', 1, [[12, t]])
-    for a in bin_a:
-        for b in two:
+    for ia, a in enumerate(bin_a):
+        for b in (two if (not quick or ia < len(two)) else two[::3]):
             yield ('exhaustive_binary', 1, [[18, a, b]])
             yield ('exhaustive_binary', 1, [[19, a, b]])
             yield ('exhaustive_binary', 7, [a, b])
@@ -874,6 +908,21 @@ def _gen0(tier, rng):
         yield ('exhaustive_binary', 1, [[20, a, []]])
         for b in two:
             yield ('exhaustive_binary', 1, [[20, a, [b]]])
+    # empty operands on either side of + / append / join, followed by operations whose result depends on the
+    # markup level of the sum, and == against the flat-equal reference construction
+    empties = [T(), E(''), TAG('em'), PROT(), HREF('u', 0), HREF('u', 1), T(TAG('em'))]
+    others = one + [t for t in trees(2) if nchars(t)][::(3 if quick else 1)]
+    for a in empties:
+        for b in others:
+            for x, y in ((a, b), (b, a)):
+                for mk in (lambda p, q: [18, p, q], lambda p, q: [19, p, q], lambda p, q: [20, p, [q]], lambda p, q: [20, E('-'), [p, q]]):
+                    e = mk(x, y)
+                    yield ('empty_operand_history', 1, [[19, e, E('!')]])
+                    yield ('empty_operand_history', 1, [[14, e, norm('.')]])
+                    yield ('empty_operand_history', 1, [[13, e]])
+                    yield ('empty_operand_history', 1, [[16, e, [1], []]])
+                yield ('empty_operand_history', 7, [[18, x, y], T(x, y)])
+                yield ('empty_operand_history', 7, [[20, x, [y, y]], T(y, x, y)])
     # equality of differently grouped constructions of the same text
     for t in (three if not quick else two + trees(3)[::3]):
         yield ('regroup', 7, [T(t), T(T(t), E(''))])
@@ -984,7 +1033,7 @@ def expanding_cases(tier, rng):
 def gen(tier, rng):
     """the base streams, plus for every case of the listed streams that contains an HRef or a Tag a variant
     with the url / name passed as String / Text objects, plus the oracle-only expanding-characters stream"""
-    stride = {'exhaustive_binary': 8, 'exhaustive_observe': 5, 'exhaustive_ctor': 3} if tier == 'quick' else {'exhaustive_binary': 3, 'exhaustive_observe': 2}
+    stride = {'exhaustive_binary': 10, 'exhaustive_observe': 6, 'exhaustive_ctor': 3} if tier == 'quick' else {'exhaustive_binary': 3, 'exhaustive_observe': 2}
     seen = {}
     for (st, fn, a) in _gen0(tier, rng):
         yield (st, fn, a)
@@ -1016,7 +1065,8 @@ RULE = ('pinned: the inputs of the defects F8 F9 F10 F17 F23 and every disagreem
         '[-(n+2), n+2] and None, every unary method, split with 7 separators x 3 keep_empty_parts values, contains / '
         'startswith / endswith with every substring up to length 3 (and tuples), + / append / == on all pairs, join on triples, '
         'and regrouped constructions compared with ==; random: deeper trees over 24 strings with up to 6 methods applied on top '
-        'of one another; malformed: non-text parts, bad separators, out-of-range piece indices, the deprecated tag name; '
+        'of one another; empty_operand_history: every empty text (Text(), String(""), Tag, Protected, HRef) on either side of +, append, join, '
+        'followed by append / add_period / capfirst / a slice and by == against the flat-equal reference construction; malformed: non-text parts, bad separators, out-of-range piece indices, the deprecated tag name; '
         '_nameobj: every case of the constructor / unary / binary / == / regroup / observer / random streams that contains an HRef or a Tag is run '
         'a second time with the urls / tag names passed as String(url), Text(url), Text(url[:k], url[k:]) objects in rotation (== also against the '
         'plain-str form); expanding_case_oracle_only: strings with characters whose case mapping changes length (sz, fi/fl ligatures, dotted I, ...) '
@@ -1024,7 +1074,7 @@ RULE = ('pinned: the inputs of the defects F8 F9 F10 F17 F23 and every disagreem
         'ORACLE ONLY, the model (ASCII case mapping) is not compared on this stream. '
         'distinct = distinct (function, argument); non-trivial = the value has markup or several parts / the list has several '
         'pieces / the observation is True.')
-EXHAUSTIVE = {'quick': 'all construction expressions of <= 3 nodes (6 node kinds, 4 leaves) and every 3rd of the 4-node ones; every slice (i, j) and index in [-(n+2), n+2] + None on all expressions of <= 2 nodes (and every 5th 3-node one); all unary methods, split (7 separators x 3 keep values), observers with every substring <= 3 on all of <= 2 nodes (every 2nd 3-node one); +, append, == on all pairs of <= 2 nodes; split at part boundaries on all expressions of <= 4 nodes over {a, space, "b c", -} x {Text, Tag, Protected}',
+EXHAUSTIVE = {'quick': 'all construction expressions of <= 3 nodes (6 node kinds, 4 leaves) and every 3rd of the 4-node ones; every slice (i, j) and index in [-(n+2), n+2] + None on all expressions of <= 2 nodes (and every 5th 3-node one); all unary methods, split (7 separators x 3 keep values), observers with every substring <= 3 on all of <= 2 nodes (every 2nd 3-node one); +, append, == on all pairs of <= 2 nodes; split at part boundaries on all expressions of <= 3 nodes (every 2nd 4-node one) over {a, space, "b c", -} x {Text, Tag, Protected}; every empty text on either side of +, append, join followed by append / add_period / capfirst / slice / ==',
               'thorough': 'all construction expressions of <= 4 nodes and every 6th of the 5-node ones; every slice/index on all of <= 3 nodes; methods/split/observers on all of <= 3 nodes (every 20th 4-node one); +, append, == on (<= 2 nodes and every 3rd 3-node one) x (<= 2 nodes)'}
 TRUSTED_BASE = ['modelled (not verified) code: pybtex/richtext.py (all classes and methods named in Model/RichText.v); '
                 'str.upper/lower/isalpha are modelled on ASCII only, \\s as the 29 Python whitespace code points; '
